@@ -144,4 +144,33 @@ example : (houts [] Reg.Registry.empty [exBase, exCat, .defcat 23, .calls [⟨.c
       exUnit3, .defcat 23]).map (fun o => match o with | .defcat d => some d | _ => none)
     = [none, none, some (.ok none), none, none, some (.ok (some 11))] := by decide +kernel
 
+-- a list of LISTS is held as given by `__init__` and by `CreateWithQuantity` alike, and is not the list of tuples
+example : construct poscDb .array (.nest .list [(true, [.num 1 false, .num 2 false]), (true, [.num 3 false, .num (9/2) false])])
+      (.str (Sym.ofString "m")) .none
+    = .ok ⟨Qty.simple (Sym.ofString "length") (Sym.ofString "m"),
+        .arr (.nest .list [(true, [.num 1 false, .num 2 false]), (true, [.num 3 false, .num (9/2) false])])⟩ := by decide +kernel
+example : createWithQuantity poscDb .array (Qty.simple (Sym.ofString "length") (Sym.ofString "m"))
+      (.nest .list [(true, [.num 7 false])]) false none
+    = construct poscDb .array (.nest .list [(true, [.num 7 false])]) (.str (Sym.ofString "m")) .none := by decide +kernel
+example : Obj.eq ⟨Qty.simple 1 2, .arr (.nest .list [(true, [.num 1 false, .num 2 false])])⟩
+      ⟨Qty.simple 1 2, .arr (.rows .list [[.num 1 false, .num 2 false]])⟩ = .ok false := by decide
+example : Obj.eq ⟨Qty.simple 1 2, .arr (.nest .list [(true, [.num 1 false]), (false, [.num 2 true])])⟩
+      ⟨Qty.simple 1 2, .arr (.nest .tuple [(true, [.num 1 true]), (false, [.num 2 false])])⟩ = .ok true := by decide
+
+-- build from the category alone, fill the list the object handed out, build again: the second object is empty
+-- again and equals the explicit form; the first one holds what was appended
+def exArr : Call := ⟨.ctor, .array, .val (.str 11), .val .none, .none, false, none⟩
+def exArrExplicit : Call := ⟨.ctor, .array, .val (.seq .list []), .val (.str 21), .str 11 none, false, none⟩
+example : (houts [] Reg.Registry.empty [exBase, exCat, .mut exArr [.append (.num 1 false), .extend [.num 2 false]],
+      .calls [exArr, exArrExplicit]]).drop 2
+    = [.mut (some (.ok ⟨Qty.simple 11 21, .arr (.seq .list [])⟩))
+         (some (.ok ⟨Qty.simple 11 21, .arr (.seq .list [.num 1 false, .num 2 false])⟩)),
+       .calls [some (.ok ⟨Qty.simple 11 21, .arr (.seq .list [])⟩), some (.ok ⟨Qty.simple 11 21, .arr (.seq .list [])⟩)]] := by
+  decide +kernel
+example : mutAll ⟨Qty.simple 1 2, .fixed (.seq .list [.num 0 false, .num 0 false]) 2⟩ [.setItem 1 (.num 5 false), .setItem 2 (.num 5 false)]
+    = some (.error .index) := by decide
+example : mutAll ⟨Qty.simple 1 2, .arr (.seq .nda [.num 1 false, .num 3 false])⟩ [.scale 2, .setItem 0 (.num 5 true)]
+    = some (.ok ⟨Qty.simple 1 2, .arr (.seq .nda [.num 5 false, .num 6 false])⟩) := by decide +kernel
+example : mutAll ⟨Qty.simple 1 2, .arr (.seq .tuple [.num 1 false])⟩ [.append (.num 1 false)] = some (.error .other) := by decide
+
 end Barril.Ctor
